@@ -122,15 +122,15 @@ CLAIMS["C04"] = dict(
         "*_without_invalid rule is replayed outside it; recorded finding); error mode x {cache on, off} is swept as well "
         "(grammars with invalid_ rules) and must agree wherever no *_without_invalid rule intervenes. Where the equality is true "
         "it is now a THEOREM (C04_cache_transparent_partial): for every module without a left-recursive leader, run quietly "
-        "with error mode off, every method/input/fuel: whenever the uncached run terminates the cached run returns the same "
+        "with error mode off -- or with error mode ON if the module has no *_without_invalid method --, every method/input/fuel: whenever the uncached run terminates the cached run returns the same "
         "outcome (value, failure, or exception incl. the token a SyntaxError points at) and, on a normal outcome, the same "
         "position and furthest token fetched -- by three inductions over the interpreter (more fuel never changes an answer; "
         "the uncached run reads its state only through the position; simulation whose invariant says every memo entry is what "
         "the uncached invocation at its position returns).",
    design="6/C04", technique="Coq proof of cache transparency (fuel monotonicity + state-independence + simulation) for modules without leaders, refutation witnesses for the verbose and error-mode cases, cache-consistency invariant + four-configuration trace correspondence (normal and error mode)",
    note="Partial: the transparency theorem excludes left-recursive leaders (their seed growing reads and overwrites the cache "
-        "by design: covered by the C02 theorems and the four-configuration correspondence), verbose tracing and error mode "
-        "(where the equality is false of the faithful model: the two recorded findings).")
+        "by design: covered by the C02 theorems and the four-configuration correspondence), verbose tracing and error mode with *_without_invalid "
+        "methods (where the equality is false of the faithful model: the two recorded findings).")
 CLAIMS["C11"] = dict(
    text="Coq theorems (Props/C11.v) over the runtime model, for every module: NAME matches a token iff kind NAME and text not "
         "in KEYWORDS; SOFT_KEYWORD iff kind NAME and text in SOFT_KEYWORDS; a quoted literal that is not also a token-kind "
